@@ -93,12 +93,20 @@ def configs(tier):
             for sc in (None, 2.0, -0.5):
                 cfgs.append({'kind': 'quadform', 'space': sp, 'mat': 'none', 'vec': 1, 'const': c,
                              'scale': sc})
-    for sp in ('rn3', 'rn3f32', 'ud3'):
+    for sp in ('rn3', 'rn3f32', 'ud3', 'rn1', 'rn2', 'rn4'):
         for meth in ('forward', 'central', 'backward'):
             for nm in ('L2NormSquared', 'Huber', 'KullbackLeibler'):
-                if nm == 'KullbackLeibler' and sp == 'rn3f32':
+                if nm == 'KullbackLeibler' and sp in ('rn3f32', 'rn1', 'rn2', 'rn4'):
                     continue
                 cfgs.append({'kind': 'numgrad', 'space': sp, 'method': meth, 'name': nm})
+    # simple_functional: which of the ingredients are given, and in which form
+    for sp in ('rn3', 'rn3wa', 'ud3'):
+        for form in ('callables', 'operators'):
+            for given in ('grad', 'grad+conj_grad', 'all'):
+                cfgs.append({'kind': 'simple', 'space': sp, 'form': form, 'given': given})
+                if given != 'grad':
+                    cfgs.append({'kind': 'simple', 'space': sp, 'form': form, 'given': given,
+                                 'conj': 1})
     return cfgs
 
 
@@ -128,10 +136,15 @@ def _site(cfg):
             extra = ',const=%s,scaled=%s' % (cfg['const'] != 0, cfg.get('scale') is not None)
         return 'QuadraticForm[%s,vector=%d%s,%s]' % (cfg['mat'], cfg['vec'], extra, _sk(cfg['space']))
     if k == 'numgrad':
-        return 'NumericalGradient[%s,%s,%s,%s]' % (cfg['method'], cfg['name'],
-                                                   'single' if cfg['space'] == 'rn3f32' else 'double',
-                                                   _sk(cfg['space']) if cfg['space'] != 'rn3f32'
-                                                   else 'tensor,unweighted')
+        return 'NumericalGradient[%s,%s,%s,%s%s]' % (cfg['method'], cfg['name'],
+                                                     'single' if cfg['space'] == 'rn3f32' else 'double',
+                                                     _sk(cfg['space']) if cfg['space'] != 'rn3f32'
+                                                     else 'tensor,unweighted',
+                                                     ',size=%s' % cfg['space'][2:]
+                                                     if cfg['space'] in ('rn1', 'rn2', 'rn4') else '')
+    if k == 'simple':
+        return 'simple_functional%s[%s,%s,%s]' % ('.convex_conj' if cfg.get('conj') else '',
+                                                   cfg['given'], cfg['form'], _sk(cfg['space']))
     return k
 
 
@@ -269,6 +282,26 @@ def _build(cfg):
         a = 1.0 if sc is None else sc
         return dict(f=f, info=info, ref=lambda z: info.inner(a * np.asarray(z), b) + c, V=FR.V5,
                     dom=lambda z: True)
+    if k == 'simple':
+        # f = 3/2 |x|^2 (gradient 3x, Lipschitz constant 3), f* = |y|^2 / 6 (gradient y/3)
+        info = FR.info(cfg['space'])
+        sp = info.space
+        ops = cfg['form'] == 'operators'
+        kw = dict(fcall=lambda x: 1.5 * x.inner(x),
+                  grad=odl.ScalingOperator(sp, 3.0) if ops else (lambda x: 3.0 * x), grad_lip=3.0)
+        if cfg['given'] in ('grad+conj_grad', 'all'):
+            kw['convex_conj_grad'] = odl.ScalingOperator(sp, 1.0 / 3) if ops else (lambda y: y / 3.0)
+            kw['convex_conj_fcall'] = lambda y: y.inner(y) / 6.0
+            kw['convex_conj_grad_lip'] = 1.0 / 3
+        if cfg['given'] == 'all':
+            kw['prox'] = lambda sig: odl.ScalingOperator(sp, 1.0 / (1.0 + 3.0 * sig))
+            kw['convex_conj_prox'] = lambda sig: odl.ScalingOperator(sp, 1.0 / (1.0 + sig / 3.0))
+        f = odl.solvers.simple_functional(sp, **kw)
+        if cfg.get('conj'):
+            f = f.convex_conj
+            return dict(f=f, info=info, ref=lambda z: info.norm2(z) / 6.0, V=FR.V5,
+                        dom=lambda z: True)
+        return dict(f=f, info=info, ref=lambda z: 1.5 * info.norm2(z), V=FR.V5, dom=lambda z: True)
     if k == 'quadform':
         info = FR.info(cfg['space'])
         A = np.array([[2.0, 0.5], [0.5, 1.0]]) if cfg['mat'] == 'sym' else \
